@@ -466,7 +466,7 @@ pub fn c13_case(rep: &mut Report, seed: u64, verbose: bool) -> bool {
 /// repeated runs (idle, pinned to one CPU, under load) and equal to what the in-process message
 /// log predicts.
 pub fn binary_determinism(rep: &mut Report, seed: u64) {
-    let bin = "/verif/target/bin/release/koge29_h8-3069f_emulator";
+    let bin = &crate::runrig::real_binary();
     if !std::path::Path::new(bin).exists() {
         rep.inconclusive.push("real release binary not built".into());
         return;
@@ -557,7 +557,8 @@ pub fn c13(rep: &mut Report, cfg: &Cfg) {
     // the terminating example programs of the repository
     if cfg.shard == 0 {
         for name in ["printf.elf", "example2.elf", "example3.elf"] {
-            let path = format!("/repo/example/{}", name);
+            let repo = std::env::var("VERIF_REPO").unwrap_or_else(|_| "/repo".to_string());
+            let path = format!("{}/example/{}", repo, name);
             if std::path::Path::new(&path).exists() {
                 let (res, findings) = traced_run(&path, "", true, 20_000_000);
                 rep.evaluations += 1;
